@@ -90,6 +90,7 @@ func (em *EModel) computeTruth() {
 	for _, n := range em.activeNames() {
 		em.truth[n] = em.m.Cond(em.rules[n])
 	}
+	em.m.Env = false // a condition that merely builds a long string is an evaluation error, nothing more
 }
 
 func (em *EModel) conflictSet() []string {
@@ -368,6 +369,10 @@ func (em *EModel) finishFiring(r *run) {
 		// the fault hit after the last write statement (e.g. inside a trailing Log)
 		em.actErrRule, em.actErrSeen = name, true
 	}
+	if em.m.Env {
+		r.abort("envelope", "model value left the envelope")
+		return
+	}
 	realC := grl.Canon(r.real.State())
 	modelC := grl.Canon(em.m.S)
 	if realC != modelC {
@@ -457,29 +462,22 @@ func (em *EModel) onReturn(r *run, err error) {
 			}
 			return
 		}
-		if err != nil {
-			if !isCtxErr(err) {
-				r.violate("C15.return-value", fmt.Sprintf("context cancelled at event %d, Execute returned a different error: %v", r.cancelSeq, err))
-			}
+		if err != nil && isCtxErr(err) {
 			return
 		}
-		// nil after cancellation: acceptable only when the run had nothing left to do
+		// Not the context's error. That is acceptable only when the run had nothing left to do
+		// when the cancellation happened (no evaluation and no firing started afterwards); the
+		// result is then judged exactly like the result of an uncancelled run below.
 		if r.evalAfterCancel || r.firingAfterCancel {
-			r.violate("C15.return-value", fmt.Sprintf("context cancelled at event %d, the engine went on (evaluationAfter=%v firingAfter=%v) and returned nil", r.cancelSeq, r.evalAfterCancel, r.firingAfterCancel))
+			r.violate("C15.return-value", fmt.Sprintf("context cancelled at event %d, the engine went on (evaluationAfter=%v firingAfter=%v) and returned %v", r.cancelSeq, r.evalAfterCancel, r.firingAfterCancel, err))
 			return
-		}
-		if !em.complete {
-			em.computeTruth()
-			em.condFault = nil
-			if cs := em.conflictSet(); len(cs) > 0 && uint64(em.firings) < r.sc.Knobs.MaxCycle {
-				r.violate("C15.return-value", fmt.Sprintf("context cancelled at event %d with work left (%v satisfied), Execute returned nil", r.cancelSeq, cs))
-			}
 		}
 		res.End = "cancel-finished"
-		return
 	}
 	if em.complete {
-		res.End = "complete"
+		if res.End == "" {
+			res.End = "complete"
+		}
 		if err != nil {
 			r.violate("C10.complete-not-nil", fmt.Sprintf("Complete() was called, Execute returned %v", err))
 		}
@@ -499,7 +497,9 @@ func (em *EModel) onReturn(r *run, err error) {
 		}
 	}
 	if err == nil {
-		res.End = "quiescent"
+		if res.End == "" {
+			res.End = "quiescent"
+		}
 		if len(cs) > 0 {
 			r.violate("C02.not-quiescent", fmt.Sprintf("Execute returned nil after %d firing(s) (MaxCycle %d) although %v are satisfied on the final facts", em.firings, r.sc.Knobs.MaxCycle, cs))
 		}
@@ -524,7 +524,9 @@ func (em *EModel) onReturn(r *run, err error) {
 		r.violate("C15.spurious-context-error", fmt.Sprintf("context error without cancellation: %v", err))
 		return
 	}
-	res.End = "limit"
+	if res.End == "" {
+		res.End = "limit"
+	}
 	if len(cs) == 0 && len(lastFaulted) == 0 {
 		r.violate("C06.unexpected-error", fmt.Sprintf("Execute returned an error although the model expects quiescence after %d firing(s): %v", em.firings, err))
 		return
